@@ -192,6 +192,9 @@ func init() {
 			q, _ := url.ParseQuery(rq.S)
 			return ex.valuesFromHost(q)
 		}
+		if rq.Op == "uf" && rq.Name == "uf_"+mangle("values.enc") {
+			return intrinsics["net/url.ParseQuery"](ex, nil, []Value{rq}).(Tuple)[0]
+		}
 		ex.nextID++
 		m := &MapV{ID: ex.nextID}
 		if ex.Branch(Eq(rq, StrLit(""))) {
